@@ -115,6 +115,26 @@ example :
   decide
 
 
+/-! ## the per-location object schema (`parameters_to_json_schema`) -/
+
+/-- **C01_params_object.** What passes the object schema built for one parameter location is exactly: an object that
+    contains every required parameter name, contains only declared names, and gives each a value valid for that
+    parameter's converted schema (the last declaration of a name wins, as in the code). -/
+theorem C01_params_object (cfg : Cfg) (fuel : Nat) (isHeader : Bool) (ps : List Param) (env : Env) (g : Nat) (v : Json) :
+    validF (g + 2) (envPlain env) (.obj (paramsToSchema cfg fuel isHeader ps)) v = true ↔
+    ∃ members, v = .obj members ∧ (∀ k ∈ paramsRequired ps, (Json.lookup k members).isSome = true) ∧
+      ∀ k x, (k, x) ∈ members →
+        ∃ s, Json.lookup k (paramsProps cfg fuel isHeader ps) = some s ∧ validF (g + 1) (envPlain env) s x = true :=
+  params_object env (paramsProps cfg fuel isHeader ps) (paramsRequired ps) g v
+
+/-- non-vacuity: required `id` present and valid passes; a missing required name or an undeclared one does not -/
+example :
+    let ps : List Param := [⟨"id", true, [("type", .str "integer")]⟩, ⟨"q", false, [("type", .str "string"), ("nullable", .bool true)]⟩]
+    validF 4 (envPlain {}) (.obj (paramsToSchema {} 6 false ps)) (.obj [("id", .num 1 0), ("q", .null)]) = true ∧
+    validF 4 (envPlain {}) (.obj (paramsToSchema {} 6 false ps)) (.obj [("q", .str "x")]) = false ∧
+    validF 4 (envPlain {}) (.obj (paramsToSchema {} 6 false ps)) (.obj [("id", .num 1 0), ("zz", .num 1 0)]) = false := by
+  decide
+
 /-! ## pattern x minLength/maxLength merging (`patterns.update_quantifier`) on the regex model -/
 
 section Regex
